@@ -77,7 +77,12 @@ func runTestCasesForServer(
 		results.failedToStart(testCases, fmt.Errorf("error starting server: %w", err))
 		return
 	}
-	defer serverProcess.abort()
+	defer func() {
+		// Also on the setup-failure paths: do not return (and thereby release
+		// the caller's server slot) while the server process is still alive.
+		serverProcess.abort()
+		_ = serverProcess.result() // wait for server process to end
+	}()
 	serverProcess.whenDone(func(_ error) {
 		procCancel()
 	})
